@@ -195,7 +195,7 @@ def YVal.goType : YVal → String
   | .int _ => "int"
   | .str _ => "string"
   | .flt _ => "float64"
-  | .lst _ => "[]interface {}"
+  | .lst _ => "[]interface{}"
   | .bool _ => "bool"
   | .null => "<nil>"
 
@@ -204,7 +204,7 @@ def documentedGoType (d : String) : Option String :=
   if d == "an int" then some "int"
   else if d == "a string" then some "string"
   else if d == "a float" then some "float64"
-  else if d == "an array of strings" then some "[]interface {}"
+  else if d == "an array of strings" then some "[]interface{}"
   else none
 
 open Scrapli.Gen.PlatformOptions in
